@@ -2,6 +2,7 @@ package redisemu
 
 import (
 	"fmt"
+	"math"
 	"time"
 )
 
@@ -72,7 +73,7 @@ func popMultiKeyWorker(ctx *cmdContext, args map[string]any, fn func(keyName str
 		keyNames = append(keyNames, keyName.(string))
 	}
 
-	timeoutNs := int64(timeout * float64(time.Second))
+	timeoutNs := blockTimeoutNs(timeout)
 	output = blockOnListChangeMultiKey(
 		ctx, keyNames, timeoutNs,
 		func() (output respValue) {
@@ -276,6 +277,16 @@ func fnRPopLPush(ctx *cmdContext, args map[string]any) (output respValue, err er
 	return
 }
 
+// converts the timeout argument (seconds) to nanoseconds; a timeout too long to be
+// represented waits indefinitely (0) instead of overflowing into an immediate timeout
+func blockTimeoutNs(timeout float64) int64 {
+	ns := timeout * float64(time.Second)
+	if ns >= float64(math.MaxInt64) {
+		return 0
+	}
+	return int64(ns)
+}
+
 func blockOnListChange(ctx *cmdContext, keyName string, timeoutNs int64, op func() (output respValue)) (output respValue) {
 	return blockOnListChangeWorker(
 		ctx,
@@ -397,7 +408,7 @@ func fnBLMove(ctx *cmdContext, args map[string]any) (output respValue, err error
 	srcKeyName := args["source"].(string)
 	timeout := args["timeout"].(float64)
 
-	timeoutNs := int64(timeout * float64(time.Second))
+	timeoutNs := blockTimeoutNs(timeout)
 	output = blockOnListChange(ctx, srcKeyName, timeoutNs, func() (output respValue) {
 		output, _ = fnLMove(ctx, args)
 		return
@@ -414,7 +425,7 @@ func fnBLMPop(ctx *cmdContext, args map[string]any) (output respValue, err error
 		keyNames = append(keyNames, keyName.(string))
 	}
 
-	timeoutNs := int64(timeout * float64(time.Second))
+	timeoutNs := blockTimeoutNs(timeout)
 	output = blockOnListChangeMultiKey(ctx, keyNames, timeoutNs, func() (output respValue) {
 		output, _ = fnLMPop(ctx, args)
 		return
@@ -436,7 +447,7 @@ func fnBRPopLPush(ctx *cmdContext, args map[string]any) (output respValue, err e
 	timeout := args["timeout"].(float64)
 	srcKeyName := args["source"].(string)
 
-	timeoutNs := int64(timeout * float64(time.Second))
+	timeoutNs := blockTimeoutNs(timeout)
 	output = blockOnListChange(ctx, srcKeyName, timeoutNs, func() (output respValue) {
 		output, _ = fnRPopLPush(ctx, args)
 		return
